@@ -259,3 +259,38 @@ package recordio
 //@ lemma writer_compression_codes:
 //@   props C20
 //@   show CompressionTypeNone == 0 && CompressionTypeGZIP == 1 && CompressionTypeSnappy == 2 && CompressionTypeLzw == 3
+
+// ---------------------------------------------------------------------------------------------------
+// C19: Close releases the descriptor / mapping the constructor acquired, whatever state the reader is in.
+// clClosed(c): Close was called on the closeable c (generic vocabulary for CloseableI values held by other packages).
+//@ ghost clClosed(c Ref) Bool
+
+//@ iface CloseableI.Close
+//@   ensures clClosed(this)
+//@   modifies clClosed(this)
+
+//@ func (*FileReader).Close
+//@   props C19
+//@   requires r.file != nil
+//@   exit [C19:descriptor-released] called(File.Close, 0) && r0 == callres(File.Close, 0, 0)
+//@   ensures [marked-closed] r.closed && !r.open
+
+//@ func (*MMapReader).Close
+//@   props C19
+//@   requires r.mmapReader != nil
+//@   exit [C19:mapping-released] called(ReaderAt.Close, 0) && r0 == callres(ReaderAt.Close, 0, 0)
+//@   ensures [marked-closed] r.closed && !r.open
+
+// Sequential reader constructor and its options as callers see them (not verified against the bodies: functional options).
+//@ func ReaderPath
+//@   assumed
+//@   modifies nothing
+//@ func ReaderBufferSizeBytes
+//@   assumed
+//@   modifies nothing
+//@ func NewFileReader
+//@   assumed
+//@   ensures r1 == nil ==> r0 != nil && !rdClosed(r0)
+//@   ensures r1 != nil ==> r0 == nil
+//@   fresh r0
+//@   modifies nothing
